@@ -39,6 +39,19 @@ def w_compare(case, verdict):
     return {"agree": not diffs, "holds": not bad, "detail": detail}
 
 
+def unrepresentable_schedule(case, detail, m):
+    """known-finding predicate (S55): a problem of the required-break stream for which the SOLVER hands over a tour whose schedule is
+    f64::MAX from some activity on (DynamicActivityCost::estimate_departure answers MAX when a job can no longer be finished around the
+    reserved time), and the writer panics in format_time on exactly that value; nothing else"""
+    impl = case.get("impl") or {}
+    return (case.get("k") == "wbreak" and isinstance(impl, dict) and "ComponentRange" in str(impl.get("panic", ""))
+            and "the writer panicked" in str(impl.get("panic", "")) and bool(impl.get("unrepresentable_schedules"))
+            and all(x[1] > 1e300 for x in impl["unrepresentable_schedules"]))
+
+
+PREDICATES = {"c03w_unrepresentable_schedule": unrepresentable_schedule}
+
+
 def w_nontrivial(case, verdict):
     info = verdict.get("info") or {}
     return info.get("routes", 0) >= 1 and info.get("activities", 0) >= 4
@@ -64,19 +77,22 @@ PROP = dict(
     modelled="solution_writer.rs::create_tour as a whole on routes without commute/parking and reserved times (C03W.writeTour: the fold over "
              "the reload intervals and the activities - stops and their grouping by location, activity ids / types / place tags / times, "
              "loads per interval incl. get_capacity and calculate_load, cumulative stop distances, the statistic, the fixed cost, the pass "
-             "that removes redundant activity details), tied by the route-dump correspondence (every route of real solver outputs is dumped "
+             "that removes redundant activity details) AND break_writer.rs insert_reserved_times_as_breaks / insert_break (C03W.writeTourX: "
+             "which reserved times belong to the tour, the scan over the legs, transit stops, breaks moved in front of a leg, the "
+             "position of the break activity, the waiting overlap, cost / driving / waiting / break accounting, stretched activity "
+             "ends, the stable sort by start time), tied by the route-dump correspondence (every route of real solver outputs is dumped "
              "through the public core API and the model must render exactly the tour the real writer rendered); the older statistic-only "
              "fold C03.foldLeg",
-    traced="create_solution around create_tour (overall statistic, unassigned, violations); the writer on tours of vehicles with REQUIRED "
-           "breaks (break_writer.rs insert_reserved_times_as_breaks is not modelled): one problem in five of the writer stage has required "
-           "breaks and every written tour is judged by the break clauses C03W.specBreakTour (driving+serving+waiting+break = duration, duration "
+    traced="create_solution around create_tour (overall statistic, unassigned, violations); for tours of vehicles with REQUIRED breaks the "
+           "core schedule with reserved times (DynamicActivityCost / DynamicTransportCost prolong service and travel) is taken from the "
+           "dump, not modelled: one problem in five of the writer stage has required breaks, the written tour must equal the model's and "
+           "is judged by the break clauses C03W.specBreakTour (driving+serving+waiting+break = duration, duration "
            "= span of the stops, cost = fixed + distance*c_d + duration*c_t, break entry = sum of the reported break activities, every break "
            "inside the tour's time span) - this stream found S52, S53, S54; the writer on clustered routes: Spec.replay recomputes from matrices, vehicle costs and the reported visiting order only — arrival = previous "
            "departure + scaled travel time, cumulative stop distances, activities inside a stop sequential, load per stop (per reload "
            "interval), tour statistic, cost = fixed + distance*c_d + duration*c_t, overall = sum of tours; the reported tag is the tag of "
            "the place (location, duration, window) that explains the activity (Spec.feasible/placeExplains)",
-    out_of_model="commute/parking (clustering); the positions and times of break activities written for reserved times (only their accounting is "
-                 "judged); the +-1 rounding of non-integral data (integer data only)",
+    out_of_model="commute/parking (clustering); the core's scheduling around reserved times; the +-1 rounding of non-integral data (integer data only)",
     assumptions=["integer-valued data: the +-1 tolerance of the format is applied but never needed"],
 )
 
@@ -85,7 +101,9 @@ META = dict(
          "clause of the reader's specification (writeTour_meets_spec: activities = the route's activities in visiting order, none lost / "
          "duplicated / reordered; duration = last - first departure; distance = sum of legs = distance of the last stop; timing entries = sums "
          "over the activities; consistent schedule => driving+serving+waiting+break = duration and cost = fixed + distance*c_d + duration*c_t; "
-         "consecutive stops differ in location; no empty stop; writeTour_total). Tie 1: correspondence - the model must render exactly "
+         "consecutive stops differ in location; no empty stop; writeTour_total); for the break writer: without reserved times it is the plain "
+         "writer (writeTourX_nil), a break written into a stop adds exactly one activity, the break, and the stable sort loses and invents "
+         "nothing (insertBreak_activities, sortByTime_count). Tie 1: correspondence - the model must render exactly "
          "the tour the real create_tour rendered for every route of real solver outputs (route dump through the public core API). "
          "Older statistic-only fold: the writer's statistic fold equals the replay of the visiting order — duration telescopes to "
          "last departure minus first departure, driving+serving+waiting+break = duration, distance = sum of leg distances, cost = fixed + "
